@@ -120,6 +120,17 @@ def structured_terms(classic):
                     out.append(body)
                     out.append(('grp', ('cat', ('t', 'f('), ('align', body), ('t', ')'))))
                     out.append(('nest', 2, ('cat', ('hl',), body)))
+    # a group, a line break into a deeper level, then something on that FOLLOWING line: plain text, a forced-break
+    # document that normalisation hoists, one that it cannot hoist (below align / annotate / fill)
+    inner = ('cat', ('t', 'c'), L, ('t', 'd'))
+    following = [inner, ('ab', inner), ('align', ('ab', inner)), ('grp', inner), ('nest', 1, ('ab', inner))]
+    if not classic:
+        following += [('ann', 7, ('ab', inner)), ('fill', ('ab', inner)), ('fc', ('ab', inner), ('ab', inner))]
+    for g in groups:
+        for brk in (('nest', 2, L), ('nest', 2, ('hl',)), ('hl',)):
+            for f in following:
+                out.append(('cat', g, brk, ('nest', 2, f)))
+                out.append(('nest', 1, ('cat', g, brk, ('nest', 2, f), ('hl',), ('t', 'a'))))
     return out
 
 
@@ -348,7 +359,7 @@ def layout_case(cid, t, doc, W, fn, fd, smart, model=True, **flags):
         'id': cid, 'W': W, 'fn': fn, 'fd': fd, 'smart': smart, 'nodes': nodes, 'root': root,
         'obs': obs_of(stream), 'ctxt': [],
         'model': bool(model), 'term': termjson(t) if model else [],
-        'c05': False, 'c06': False, 'strict': True, 'diag': False,
+        'c05': False, 'c06': False, 'strict': True, 'diag': False, 'rnl': False,
     }
     case.update(flags)
     return case, stream
